@@ -256,6 +256,12 @@ func (m *Markdown) renderHTMLBlock(w io.Writer, n *ast.HTMLBlock, src []byte) er
 			return err
 		}
 	}
+	// The line that ends the block (the "-->" of a comment, a closing tag) is kept apart by the parser.
+	if n.HasClosure() {
+		if _, err := w.Write(n.ClosureLine.Value(src)); err != nil {
+			return err
+		}
+	}
 	return nil
 }
 
